@@ -615,6 +615,33 @@ theorem evaluate_sound (cands constraints : List Str) (dranges : List DateRange)
   simp only [List.nil_append, bind, Except.bind] at hout
   exact stages234_sound cands constraints dranges tranges hyp fuel out hout
 
+/-- C15 **evaluate_sound_grammar** — `evaluate_sound` with the candidate hypotheses discharged for ALL candidate strings
+of the grammar (`XXXX-WXX-d`, `XXXX-MM-DD`, each alone or with `Thh[:mm[:ss]]`, and `Thh[:mm[:ss]]`; digits universally
+quantified, `CandForm`): only the constraints remain as hypotheses. -/
+theorem evaluate_sound_grammar (ws : List CandForm) (hws : ∀ w ∈ ws, w.ok) (constraints : List Str)
+    (dranges : List DateRange) (tranges : List TimeRange)
+    (dr : ((constraints.map (parse genCfg)).filter fun t => (infer t).daterange).mapM daterangeFromTimex = .ok dranges)
+    (dne : dranges ≠ [])
+    (tr : ((constraints.map (parse genCfg)).filter fun t => (infer t).timerange).mapM (timerangeFromTimex genCfg) = .ok tranges)
+    (conClock : ∀ t ∈ constraints.map (parse genCfg), (infer t).time = true → ClockT (timeFromTimex t))
+    (fuel : Nat) (out : List Str) (hout : evaluate genCfg fuel (ws.map CandForm.render) constraints = .ok out) :
+    ∀ s ∈ out, ∃ c ∈ ws.map CandForm.render, ∃ (d : Date) (tmo : Option Time), ∃ r0 ∈ dranges,
+      d.valid = true ∧ s = isoDateStr d ++ fmtTime tmo ∧ parse genCfg s = dateTimex d tmo ∧
+      r0.s ≤ d.ord ∧ d.ord < r0.e ∧ Instance (parse genCfg c) d tmo ∧
+      (tranges ≠ [] → ∃ tm ms, ∃ tr0 ∈ tranges, tmo = some tm ∧ msOf tm.hour tm.minute tm.second = .ok ms ∧
+        tr0.s ≤ ms ∧ ms < tr0.e) := by
+  have hyp : EvalHyp (ws.map CandForm.render) constraints dranges tranges :=
+    { cand := by
+        intro c hc
+        obtain ⟨w, hw, rfl⟩ := List.mem_map.mp hc
+        exact (candKind_of_grammar genCfg genCfg_ok' w (hws w hw)).1
+      candClock := by
+        intro c hc
+        obtain ⟨w, hw, rfl⟩ := List.mem_map.mp hc
+        exact (candKind_of_grammar genCfg genCfg_ok' w (hws w hw)).2
+      dr := dr, dne := dne, tr := tr, conClock := conClock }
+  exact evaluate_sound _ constraints dranges tranges hyp fuel out hout
+
 /-! ## duration candidates -/
 
 /-- hypotheses of `evaluate_sound_durations`: each candidate is of a `CandKind` family (with a clock-like time if any)
